@@ -6,6 +6,7 @@ runs the demonstration with and without the change, then runs `servcheck -all` o
 import json, os, re, shutil, subprocess, sys, tempfile, glob
 
 W = "/tmp/scratch/w"
+RACE = "-race"
 ENV = dict(os.environ, GOFLAGS="-mod=mod", GOPROXY="off", GOSUMDB="off", GOTOOLCHAIN="local")
 
 def sh(cmd, cwd=W, env=None, timeout=600):
@@ -41,7 +42,7 @@ def run_demo(demo_dir, xdg):
         if not names:
             continue
         pat = "^(" + "|".join(sorted(set(names))) + ")$"
-        rc, out = sh(f"go test -vet=off -count=1 -race -run '{pat}' ./{pkg}", env=env, timeout=900)
+        rc, out = sh(f"go test -vet=off -count=1 {RACE} -run '{pat}' ./{pkg}", env=env, timeout=900)
         if "race" in out and "requires cgo" in out:
             rc, out = sh(f"go test -vet=off -count=1 -run '{pat}' ./{pkg}", env=env, timeout=900)
         results[pkg] = (rc, out[-1500:])
@@ -56,6 +57,13 @@ def main():
     reset()
     # without the change
     base = run_demo(demo, xdg)
+    if any(rc != 0 for rc, _ in base.values()):
+        # timing-sensitive demonstrations can fail under the race detector's slowdown
+        global RACE
+        RACE = ""
+        reset()
+        base = run_demo(demo, xdg)
+    rep["race_detector"] = bool(RACE)
     rep["demo_without_change"] = {p: ("pass" if rc == 0 else "FAIL") for p, (rc, _) in base.items()}
     reset()
     rc, out = sh(f"git apply {diff}")
